@@ -3,6 +3,7 @@ package worker
 import (
 	"fmt"
 	"math"
+	"strings"
 	"testing"
 	"time"
 
@@ -17,21 +18,22 @@ import (
 // liveness), C12 (nearest supported value, by-product).
 
 type loopOpts struct {
-	kinds        []string
-	neverStopP   float64
-	stallP       float64
-	absurdTemps  bool
-	faultP       float64
-	identityOnly bool // request observable as file content
-	directOnly   bool
-	fullRange    bool // no limits (C12)
-	maxFans      int
-	horizonLo    int
-	horizonHi    int
-	constCurve   bool // constant temperature (C10: request unchanged)
-	rpmWin       []int
-	neverSpinP   float64
-	stableAlgos  bool // only algorithms documented to settle (direct, rate-limited, default PID)
+	kinds         []string
+	neverStopP    float64
+	stallP        float64
+	absurdTemps   bool
+	faultP        float64
+	identityOnly  bool // request observable as file content
+	directOnly    bool
+	fullRange     bool // no limits (C12)
+	maxFans       int
+	horizonLo     int
+	horizonHi     int
+	constCurve    bool // constant temperature (C10: request unchanged)
+	rpmWin        []int
+	neverSpinP    float64
+	rpmSideFaults bool // third-party PWM writes and PWM read faults seen by the RPM monitor
+	stableAlgos   bool // only algorithms documented to settle (direct, rate-limited, default PID)
 }
 
 var absurdTemps = []int{-273000, -50000, -1, 0, 1, 19999, 20000, 20001, 35000, 50000, 64999, 79999, 80000, 80001, 120000, 2147483647, -2147483648, 9007199254740993, -9007199254740993}
@@ -248,6 +250,33 @@ func genLoop(family string, seed uint64, tier string, o loopOpts) *world.Scenari
 			}
 		}
 	}
+	if o.rpmSideFaults {
+		// what the RPM monitor sees between two control cycles: a third party lowering the PWM of a
+		// spinning fan, and failing / absurd reads of the PWM file in the monitor's own sample
+		rr := kernel.NewRand(seed, "loop.rpmside")
+		for i := range sc.Fans {
+			f := &sc.Fans[i]
+			if f.Kind == "cmd" {
+				continue
+			}
+			n := rr.Range(1, 5)
+			for j := 0; j < n; j++ {
+				at := 3 + rr.Float()*(horizon-4)
+				if f.PwmMap == nil {
+					at = 0.4*horizon + rr.Float()*(0.6*horizon-1) // leave the start-up sweep alone most of the time
+				}
+				v := rr.Range(0, 60)
+				if rr.Bool(0.3) {
+					v = rr.Range(0, 255)
+				}
+				sc.Env = append(sc.Env, world.EnvEvent{Kind: "3rd.pwm", Fan: f.ID, Value: v, At: sec(at)})
+			}
+			if rr.Bool(0.6) {
+				sc.Faults = append(sc.Faults, world.FaultSpec{Op: "read", Target: "fan:" + f.ID + ":pwm", Nth: rr.Range(0, 40), Count: rr.Range(1, 3),
+					Kind: kernel.Pick(rr, "eio", "garbage", "empty", "missing", "value:0", "value:1", "value:3", "negative"), OnlyFlags: "rpm"})
+			}
+		}
+	}
 	if r.Bool(0.15) {
 		sc.SlowP, sc.SlowMx = 0.02, sec(1.5)
 	}
@@ -323,14 +352,17 @@ type loopOracle struct {
 }
 
 type loopFan struct {
-	spec     *world.FanSpec
-	m        map[int]int
-	lo, hi   int
-	allowed  map[int]bool
-	cycles   int
-	prev     *Cycle
-	floorMax int // highest GetMinPwm seen
-	raises   int
+	polluted     bool
+	lastWriteSeq int // sequence number of the last regulating write that reached the file
+	envSeq       int // sequence number of the last third-party interference with this fan
+	spec         *world.FanSpec
+	m            map[int]int
+	lo, hi       int
+	allowed      map[int]bool
+	cycles       int
+	prev         *Cycle
+	floorMax     int // highest GetMinPwm seen
+	raises       int
 	// C10
 	zeroSince   int // rpm polls with 0 since the current stall episode began (-1: not stalled)
 	pollsAtZero int
@@ -397,6 +429,9 @@ func (o *loopOracle) onWrite(fan string, ev *kernel.Event, value int) {
 		return
 	}
 	o.res.Probe("regulating-writes")
+	if ev.Err == "" && ev.Fault == "" {
+		lf.lastWriteSeq = ev.Seq
+	}
 	if o.props["C01"] {
 		if value < 0 || value > 255 {
 			o.res.Violate("C01", "range-0-255", "range-0-255 "+o.sig(lf), ev.Seq, ev.T, "fan %s: regulating write of %d outside 0..255", fan, value)
@@ -432,6 +467,10 @@ func (o *loopOracle) onCycle(c *Cycle) {
 		if rd.Err != "" || rd.Fault != "" {
 			faulty = true
 		}
+	}
+	if lf.envSeq > lf.lastWriteSeq || lf.polluted {
+		// a third party wrote the file after fan2go's last regulating write: it no longer shows the request
+		faulty = true
 	}
 	req := c.After.Pwm
 	if o.props["C12"] && lf.lo == 0 && lf.hi == 255 && directNoLimit(lf.spec) && !faulty && c.After.Raises == 0 {
@@ -531,6 +570,18 @@ func contains(a []int, x int) bool {
 }
 
 func (o *loopOracle) OnEvent(ev *kernel.Event) {
+	if ev.Kind == "env" && strings.HasPrefix(ev.Site, "3rd.") {
+		if lf := o.fans[ev.ID]; lf != nil {
+			lf.envSeq = ev.Seq
+			if lf.cycles == 0 {
+				// interference with the start-up analysis (PWM map sweep): the map in force is no
+				// longer the reference map, so requests of this fan are not observable in this run
+				lf.polluted = true
+				o.res.Probe("third-party-during-startup(fan not judged)")
+			}
+			o.res.Probe("third-party-interference")
+		}
+	}
 	o.ct.OnEvent(ev)
 	if !o.props["C10"] {
 		return
@@ -655,6 +706,9 @@ func init() {
 	register(&Family{Name: "c02", Run: runLoop("C02"), Gen: func(seed uint64, tier string) *world.Scenario {
 		return genLoop("c02", seed, tier, loopOpts{kinds: []string{"hwmon", "hwmon", "file"}, neverStopP: 1, stallP: 0.7, neverSpinP: 0.15, identityOnly: true, horizonLo: 30, horizonHi: 90, rpmWin: []int{1, 2, 5}})
 	}})
+	register(&Family{Name: "c02side", Run: runLoop("C02"), Gen: func(seed uint64, tier string) *world.Scenario {
+		return genLoop("c02side", seed, tier, loopOpts{kinds: []string{"hwmon", "hwmon", "file"}, neverStopP: 1, stallP: 0.5, neverSpinP: 0.05, identityOnly: true, horizonLo: 20, horizonHi: 50, rpmWin: []int{1, 2, 5}, rpmSideFaults: true})
+	}})
 	register(&Family{Name: "c02cmd", Run: runLoop("C02"), Gen: func(seed uint64, tier string) *world.Scenario {
 		return genLoop("c02cmd", seed, tier, loopOpts{kinds: []string{"cmd"}, maxFans: 1, neverStopP: 1, stallP: 0.8, neverSpinP: 0.1, identityOnly: true, horizonLo: 20, horizonHi: 30, rpmWin: []int{1, 2}})
 	}})
@@ -664,6 +718,13 @@ func init() {
 		sc := genLoop("c10", seed, tier, loopOpts{kinds: []string{"hwmon", "hwmon", "file"}, maxFans: 1, neverStopP: 1, stallP: 1, neverSpinP: 0.25, identityOnly: r.Bool(0.6), constCurve: true, stableAlgos: true,
 			horizonLo: 40, horizonHi: 60, rpmWin: []int{win}})
 		c10Tune(sc, r, win)
+		if tr := kernel.NewRand(seed, "c10.3rd"); tr.Bool(0.3) {
+			// something else rewrites the PWM value after every (or every other) control cycle; fan2go
+			// re-writes its unchanged request each time and the rotor stays blocked all the same
+			f := &sc.Fans[0]
+			sc.Env = append(sc.Env, world.EnvEvent{Kind: "3rd.pwm", Fan: f.ID, Value: kernel.Pick(tr, 0, 1, f.Driver.AutoPwm, f.Driver.InitPwm), When: kernel.Pick(tr, "cycle", "cycle", "cycle2"), At: sec(tr.Float() * 12)})
+			sc.Variant = "third-party-every-cycle"
+		}
 		return sc
 	}})
 	register(&Family{Name: "c10cmd", Run: runLoop("C10", "C02"), Gen: func(seed uint64, tier string) *world.Scenario {
